@@ -406,3 +406,334 @@ Proof.
       * apply (Hlk' (set_min h nm)). left; reflexivity.
       * apply Hlk'. right. exact Hs.
 Qed.
+
+(* ------------------------------------------------------------------ *)
+(* truncateTailLocked                                                   *)
+Definition tail_sum (lastidx : N) (rpost : list seginfo) (ntr : N) : N :=
+  fold_left (fun a s => (a + sub64 (emax lastidx s) (si_min s) + 1) mod two64) rpost ntr.
+
+Lemma tail_scan_split nm li : forall rpost rpre del ntr,
+  Forall (fun s => (nm <? si_base s) = true) rpost ->
+  match rpre with [] => True | s :: _ => (nm <? si_base s) = false end ->
+  tail_scan nm li (rpost ++ rpre) del ntr = (rpre, del ++ map name_of rpost, tail_sum li rpost ntr).
+Proof.
+  induction rpost as [|s rpost IH]; intros rpre del ntr HF Hr.
+  - cbn [app map tail_sum fold_left]. rewrite app_nil_r. destruct rpre as [|h r]; [reflexivity|].
+    cbn [tail_scan]. destruct (N.leb_spec (si_base h) nm); [reflexivity|lia].
+  - inversion HF as [|? ? Hs HF']; subst. cbn [app tail_scan].
+    destruct (N.leb_spec (si_base s) nm); [lia|]. fold (emax li s).
+    rewrite IH by assumption. cbn [map tail_sum fold_left]. rewrite <- app_assoc. reflexivity.
+Qed.
+
+Definition add_tail (k : N) (m : metrics) : metrics :=
+  {| m_bytes_written := m_bytes_written m; m_entries_written := m_entries_written m;
+     m_appends := m_appends m; m_bytes_read := m_bytes_read m;
+     m_entries_read := m_entries_read m; m_rotations := m_rotations m;
+     m_head_trunc := m_head_trunc m; m_tail_trunc := (m_tail_trunc m + k) mod two64;
+     m_stable_gets := m_stable_gets m; m_stable_sets := m_stable_sets m |}.
+
+(* Writer.ForceSeal *)
+Lemma force_seal_arith off n lim (hdr : bool) :
+  lim < two30 -> off <= lim -> 8 * n <= off -> 0 < n ->
+  let total := (if hdr then 32 else 0) + index_frame_size n + 8 in
+  (off + total) mod two32 = off + total /\ off + total < two32 /\ 8 * n <= off + total /\
+  (off + total =? 0) = false /\ 0 < off + (if hdr then 32 else 0) + 8.
+Proof.
+  intros H1 H2 H3 H4. cbv zeta. assert (Hifs := index_frame_size_bounds n H4).
+  unfold two30, two32 in *. rewrite N.mod_small by (destruct hdr; lia).
+  repeat split; destruct hdr; lia.
+Qed.
+
+Lemma seg_force_seal_ok c e t tw :
+  cfg_ok c -> e_fault e = None -> tail_ok c (e_disk e) t tw -> ws_index_start tw = 0 -> 0 < ws_n tw ->
+  exists tw' e',
+    seg_force_seal tw e = (ROk, tw', e') /\ e_fault e' = None /\ e_m e' = e_m e /\
+    tail_ok c (e_disk e') t tw' /\ ws_n tw' = ws_n tw /\ 0 < ws_index_start tw' /\
+    dk_meta (e_disk e') = dk_meta (e_disk e) /\ dk_stable (e_disk e') = dk_stable (e_disk e) /\
+    dk_inited (e_disk e') = dk_inited (e_disk e) /\
+    (forall m, fname_eqb m (name_of t) = false ->
+               lookup m (dk_files (e_disk e')) = lookup m (dk_files (e_disk e))) /\
+    file_ents (name_of t) (e_disk e') = file_ents (name_of t) (e_disk e) /\
+    (forall m, lookup m (dk_files (e_disk e)) = None -> lookup m (dk_files (e_disk e')) = None).
+Proof.
+  intros Hc He HT His Hn.
+  destruct (vis_tail _ _ _ _ HT) as (f & Hf & Hlen & Hend & Hseal & _).
+  destruct HT as (H1 & H2 & H3 & H4 & H5 & H6 & H7 & H8 & H9 & H10 & H11 & H12 & H13 & H14 & H15 & H16 & H17
+          & _).
+  destruct (cfg_seg_size c Hc) as [Hs1 Hs2].
+  assert (Hoff : ws_off tw <= c_seg_size c) by (apply H16; exact His).
+  destruct (force_seal_arith (ws_off tw) (ws_n tw) (c_seg_size c) (ws_hdr tw) Hs2 Hoff H14 Hn)
+    as (A1 & A2 & A3 & A4 & A5).
+  unfold seg_force_seal. rewrite His. change (0 <? 0) with false. cbv iota.
+  destruct (N.eqb_spec (ws_n tw) 0) as [|_]; [lia|]. cbv zeta.
+  set (total := (if ws_hdr tw then 32 else 0) + index_frame_size (ws_n tw) + 8) in *.
+  rewrite A1. clear A1. rewrite (io_ok _ _ He). cbn [negb]. rewrite (io_ok _ _ (io_post_fault _ _)). cbn [negb].
+  eexists _, _. split; [reflexivity|]. split; [reflexivity|]. split; [reflexivity|].
+  set (istart := ws_off tw + (if ws_hdr tw then 32 else 0) + 8) in *.
+  clearbody total istart.
+  set (b := {| pb_ents := []; pb_end := ws_off tw + total; pb_seal := istart |}).
+  assert (Hd : e_disk (io_post (ASync (ws_name tw)) (io_post (AWrite (ws_name tw) (ws_off tw) total b) e))
+               = wsync (e_disk e) (name_of t) (ws_off tw) total b).
+  { rewrite H8. reflexivity. }
+  rewrite Hd. clear Hd.
+  destruct Hf as (Hlk & Hpend & Hfc & Hfok).
+  assert (Hlk' := fun m => lookup_wsync (e_disk e) (name_of t) (ws_off tw) total b f m Hlk Hpend).
+  destruct (wsync_other (e_disk e) (name_of t) (ws_off tw) total b) as (Ho1 & Ho2 & Ho3).
+  cbn [pb_ents b] in Hlk'. rewrite app_nil_r in Hlk'.
+  set (f' := {| df_ents := df_ents f; df_end := pb_end b; df_seal := pb_seal b;
+                df_pend := None; df_dir := true; df_size := df_size f |}) in *.
+  assert (Hf' : file_ok (wsync (e_disk e) (name_of t) (ws_off tw) total b) t f').
+  { unfold file_ok. rewrite Hlk', fname_eqb_refl. cbn [f' df_pend df_ents]. repeat split; auto. }
+  split.
+  { unfold tail_ok. cbn [ws_n ws_name ws_base ws_min ws_limit ws_off ws_hdr ws_index_start ws_commit_idx].
+    destruct (N.eqb_spec (ws_n tw) 0) as [|_]; [lia|].
+    repeat split; auto; try lia.
+    exists f'. split; [exact Hf'|]. cbn [f' df_ents df_end df_seal b pb_end pb_seal]. repeat split; auto. }
+  split; [reflexivity|]. split; [exact A5|]. split; [exact Ho1|]. split; [exact Ho2|]. split; [exact Ho3|].
+  split; [intros m Hm; rewrite Hlk', Hm; reflexivity|].
+  split.
+  - unfold file_ents. rewrite Hlk', fname_eqb_refl, Hlk. unfold cur_ents. cbn [f' df_pend df_ents]. rewrite Hpend. reflexivity.
+  - intros m Hm. rewrite Hlk'. destruct (fname_eqb m (name_of t)) eqn:Em; [|exact Hm].
+    apply fname_eqb_eq in Em. subst m. congruence.
+Qed.
+
+(* a tail writer that still holds entries [.. mx] recorded as sealed at mx *)
+Lemma sealed_of_tail_at c d t tw mx istart :
+  tail_ok c d t tw -> 0 < ws_n tw -> si_min t <= mx -> mx <= si_base t + ws_n tw - 1 ->
+  sealed_ok c d (seal_info t mx istart).
+Proof.
+  intros (H1 & H2 & H3 & H4 & H5 & H6 & H7 & H8 & H9 & H10 & H11 & H12 & H13 & H14 & H15 & H16 & H17
+          & f & Hf & Hn & He & Hs) Hpos Hm1 Hm2.
+  unfold sealed_ok, seal_info. cbn [si_sealed si_codec si_base si_min si_max].
+  split; [reflexivity|]. split; [exact H2|]. split; [exact H4|]. split; [exact H5|].
+  split; [lia|]. split; [lia|]. exists f. split; [|split; lia]. exact Hf.
+Qed.
+
+Lemma sealed_set_max c d s mx istart :
+  sealed_ok c d s -> si_min s <= mx -> mx <= si_max s -> sealed_ok c d (seal_info s mx istart).
+Proof.
+  intros (H1 & H2 & H3 & H4 & H5 & H6 & f & Hf & H7 & H8) Hm1 Hm2.
+  unfold sealed_ok, seal_info. cbn [si_sealed si_codec si_base si_min si_max].
+  repeat split; auto; try lia. exists f. split; [exact Hf|]. split; [exact H7|lia].
+Qed.
+
+Lemma seg_visible_ents tl d d' s :
+  file_ents (name_of s) d' = file_ents (name_of s) d -> seg_visible tl d' s = seg_visible tl d s.
+Proof. intros E. unfold seg_visible. rewrite E. reflexivity. Qed.
+
+Lemma firstn_content c d tl pre sv post nmax istart d' :
+  Forall (sealed_ok c d) pre -> linked (pre ++ sv :: post) -> Forall (fun p => si_max p <= nmax) pre ->
+  1 <= si_min sv -> nmax <= emax tl sv ->
+  (N.to_nat (nmax + 1 - si_min sv) <= length (seg_visible tl d sv))%nat ->
+  (forall s, In s pre -> lookup (name_of s) (dk_files d') = lookup (name_of s) (dk_files d)) ->
+  file_ents (name_of sv) d' = file_ents (name_of sv) d ->
+  flat_map (seg_visible 0 d') (pre ++ [seal_info sv nmax istart]) =
+  firstn (N.to_nat (nmax + 1 - si_min (hd sv pre))) (flat_map (seg_visible tl d) (pre ++ sv :: post)).
+Proof.
+  intros HS HL HM H1 H2 H3 Hlk Hfe.
+  rewrite (firstn_chain c d tl nmax pre sv post HS HL HM).
+  rewrite flat_map_app. f_equal.
+  - apply (flat_map_visible_sealed c); assumption.
+  - cbn [flat_map]. rewrite app_nil_r. rewrite firstn_app_le by exact H3.
+    rewrite (vis_set_max tl 0 d' sv nmax istart H1 H2). f_equal. apply seg_visible_ents. exact Hfe.
+Qed.
+
+Lemma truncate_tail_ok c w e ss t tw nmax :
+  cfg_ok c -> e_fault e = None -> WInvS c w (e_disk e) ss t tw -> ws_index_start tw = 0 ->
+  st_next_id w + 1 < two64 ->
+  first_index (st_segs w) (st_tail w) <= nmax -> nmax < last_index (st_segs w) (st_tail w) ->
+  exists w' e',
+    truncate_tail c w nmax e = (ROk, w', e') /\ e_fault e' = None /\ WInv c w' (e_disk e') /\
+    dk_stable (e_disk e') = dk_stable (e_disk e) /\
+    st_next_id w <= st_next_id w' /\ st_next_id w' <= st_next_id w + 1 /\
+    abs w' (e_disk e') =
+      {| sl_first := first_index (st_segs w) (st_tail w);
+         sl_ents := firstn (N.to_nat (nmax + 1 - first_index (st_segs w) (st_tail w)))
+                           (sl_ents (abs w (e_disk e))) |}.
+Proof.
+  intros Hc He HI His Hnid HFn HnL.
+  assert (HI0 := HI).
+  assert (Hro0 := WInvS_rotate_none _ _ _ _ _ _ HI His).
+  destruct (abs_props _ _ _ _ _ _ HI) as (_ & _ & _ & _ & Hne).
+  destruct HI as (Hcl & Hfa & Hmeta & Hini & Hfr & Hsegs & Htail & HS & HT & HL & Hro).
+  unfold truncate_tail.
+  set (L := last_index (st_segs w) (st_tail w)) in *.
+  set (F := first_index (st_segs w) (st_tail w)) in *.
+  assert (HLeq : last_index (ss ++ [t]) (Some tw) = L) by (unfold L; rewrite Hsegs, Htail; reflexivity).
+  assert (HL0 : L <> 0) by lia.
+  destruct (Hne HL0) as (Ha & HFm & HF1 & HFL & HLlen & HL1 & Hcons).
+  replace (rev (st_segs w)) with (t :: rev ss) by (rewrite Hsegs, rev_unit; reflexivity).
+  destruct (span (fun s => nmax <? si_base s) (t :: rev ss)) as (rpost & rpre & E & HFp & Hr).
+  rewrite E. rewrite (tail_scan_split nmax L rpost rpre [] 0 HFp Hr). cbn [app].
+  (* the first segment survives *)
+  assert (Hhd_in : In (hd t ss) (t :: rev ss)).
+  { destruct ss as [|s0 r0]; [left; reflexivity|]. right. apply in_rev. rewrite rev_involutive. left; reflexivity. }
+  assert (Hhd_base : si_base (hd t ss) <= nmax).
+  { destruct ss as [|s0 r0]; cbn [hd] in *.
+    - assert (si_base t <= si_min t) by apply HT. lia.
+    - inversion HS as [|? ? (_ & _ & _ & ? & _) _]; subst. lia. }
+  destruct rpre as [|sv rpre'].
+  { exfalso. rewrite app_nil_r in E. subst rpost. rewrite Forall_forall in HFp.
+    specialize (HFp _ Hhd_in). cbv beta in HFp. lia. }
+  apply N.ltb_ge in Hr.
+  assert (E' : ss ++ [t] = rev rpre' ++ sv :: rev rpost).
+  { apply (f_equal (@rev _)) in E. cbn [rev] in E. rewrite rev_involutive in E. rewrite E.
+    rewrite rev_app_distr. cbn [rev]. rewrite <- app_assoc. reflexivity. }
+  set (pre' := rev rpre') in *. set (post := rev rpost) in *.
+  assert (Hrest : rev (sv :: rpre') = pre' ++ [sv]) by reflexivity.
+  rewrite Hrest.
+  assert (Hpost : Forall (fun s => nmax < si_base s) post).
+  { unfold post. apply Forall_rev. eapply Forall_impl; [|exact HFp]. intros s Hs. cbv beta in Hs. lia. }
+  assert (Hpost_def : post = rev rpost) by reflexivity. clearbody pre' post.
+  destruct (bases_before _ _ _ _ _ _ _ HS HL E') as [Hpb HSp].
+  assert (Hlinked : linked (pre' ++ sv :: post)) by (rewrite <- E'; exact HL).
+  assert (Hpm : Forall (fun p => si_max p <= nmax) pre').
+  { eapply Forall_impl; [|exact Hpb]. intros s Hs. cbv beta in Hs. lia. }
+  assert (Hpbase : Forall (fun s => si_base s < si_base sv) pre').
+  { rewrite Forall_forall in *. intros s Hs. specialize (Hpb s Hs). destruct (sealed_srange _ _ _ (HSp s Hs)). lia. }
+  assert (Hhd : hd t ss = hd sv pre') by (eapply hd_split; exact E').
+  assert (Hminsv : si_min sv <= nmax /\ 1 <= si_min sv).
+  { destruct pre' as [|p0 pre0] eqn:Ep using rev_ind.
+    - cbn [hd] in Hhd. rewrite <- Hhd, <- HFm. lia.
+    - clear IHpre0. rewrite <- app_assoc in Hlinked. cbn [app] in Hlinked. apply linked_app_r in Hlinked.
+      destruct Hlinked as (E1 & E2 & _). lia. }
+  destruct Hminsv as [Hminsv Hminsv1].
+  assert (Hsorted := bases_lt_split _ _ _ _ (pre' ++ [sv]) post HS HL
+                       ltac:(rewrite <- app_assoc; exact E')).
+  set (si := new_segment c (st_next_id w) (nmax + 1)).
+  assert (Hnone : lookup (name_of si) (dk_files (e_disk e)) = None) by (apply Hfr; cbn; lia).
+  assert (Hlisted : forall x, In x (ss ++ [t]) -> lookup (name_of x) (dk_files (e_disk e)) <> None).
+  { intros x Hx. apply in_app_or in Hx. destruct Hx as [Hx|[<-|[]]].
+    - rewrite Forall_forall in HS. destruct (HS x Hx) as (_ & _ & _ & _ & _ & _ & f & (Hl & _) & _). congruence.
+    - destruct HT as (_ & _ & _ & _ & _ & _ & _ & _ & _ & _ & _ & _ & _ & _ & _ & _ & _ & f & (Hl & _) & _).
+      congruence. }
+  destruct (snoc_split ss t pre' (sv :: post) E') as [[E1 _]|(r' & E1 & E2)]; [discriminate|].
+  destruct r' as [|sv2 r2]; cbn [app] in E1.
+  - (* the tail segment itself is cut: force-seal it *)
+    injection E1 as Esv Epost. subst sv. rewrite app_nil_r in E2.
+    assert (Hrp : rpost = []).
+    { rewrite Hpost_def in Epost. destruct rpost as [|x xs]; [reflexivity|].
+      apply (f_equal (@length _)) in Epost. rewrite rev_length in Epost. discriminate. }
+    assert (Hu : si_sealed t = false) by apply HT. rewrite Hu. rewrite Htail.
+    destruct (tail_commit _ _ _ _ HT) as [Hci Hb].
+    rewrite (last_index_inv c (e_disk e) ss _ _ HT) in HLeq.
+    assert (Hn : 0 < ws_n tw).
+    { destruct (N.eqb_spec (ws_n tw) 0) as [En|En]; [|lia]. exfalso.
+      destruct ss as [|s0 r0]; [lia|]. rewrite <- E2 in *. cbn [hd] in *.
+      inversion HS as [|? ? (_ & _ & _ & ? & _) _]; subst. lia. }
+    destruct (seg_force_seal_ok c e t tw Hc He HT His Hn)
+      as (tw' & e1 & Hfs & He1 & Hm1 & HT1 & Hn1 & His1 & Hme1 & Hst1 & Hin1 & Hlk1 & Hfe1 & Hno1).
+    rewrite Hfs.
+    fold (seal_info t nmax (ws_index_start tw')).
+    set (t' := seal_info t nmax (ws_index_start tw')).
+    subst pre'.
+    rewrite (seg_set_replace_last t' ss t Hpbase eq_refl).
+    assert (Hbase_le : Forall (fun s => si_base s < si_max t' + 1) (ss ++ [t'])).
+    { apply Forall_app. split.
+      - eapply Forall_impl; [|exact Hpbase]. intros s Hs. cbn [t' seal_info si_max] in *. lia.
+      - constructor; [|constructor]. cbn [t' seal_info si_max si_base]. lia. }
+    rewrite (create_next_snoc c _ ss t' 0 Hbase_le ltac:(cbn [t' seal_info si_max]; lia) Hnid).
+    change (si_max t' + 1) with (nmax + 1). fold si.
+    set (w0 := {| st_next_id := st_next_id w; st_segs := st_segs w; st_tail := Some tw';
+                  st_rotate := st_rotate w; st_failed := st_failed w; st_closed := st_closed w |}).
+    set (e0 := add_m e1 _).
+    assert (HnL' : nmax <= si_base t + ws_n tw - 1).
+    { destruct (N.eqb_spec (ws_n tw) 0); lia. }
+    assert (HSt' : sealed_ok c (e_disk e1) t').
+    { unfold t'. apply (sealed_of_tail_at c (e_disk e1) t tw'); [exact HT1|lia|exact Hminsv|lia]. }
+    assert (Hoth : forall s, In s ss -> lookup (name_of s) (dk_files (e_disk e1)) = lookup (name_of s) (dk_files (e_disk e))).
+    { intros s Hs. apply Hlk1. apply fname_neq_base. rewrite Forall_forall in Hpbase. specialize (Hpbase s Hs).
+      cbn [name_of fst]. lia. }
+    destruct (mutate_new_tail c false w0 e0 (ss ++ [t']) (nmax + 1) (map name_of rpost))
+      as (Hmut & HI' & He' & Hst' & Hm' & Hlk'); try assumption; try reflexivity; try lia.
+    { intros n Hn'. apply Hno1. apply Hfr. exact Hn'. }
+    { change (e_disk e0) with (e_disk e1). congruence. }
+    { apply Forall_app. split; [|constructor; [exact HSt'|constructor]].
+      eapply sealed_ok_frame_all; [|exact HS]. exact Hoth. }
+    { rewrite <- app_assoc. cbn [app]. apply linked_app_intro.
+      - eapply linked_last_replace; [| |exact HL]; reflexivity.
+      - cbn [linked new_segment si_base si_min t' seal_info si_max]. repeat split; reflexivity. }
+    change (new_segment c (st_next_id w0) (nmax + 1)) with si in *.
+    change (st_next_id w0) with (st_next_id w) in *.
+    unfold mutate. rewrite Hmut. rewrite Hrp. cbn [map delete_files fold_left].
+    eexists _, _. split; [reflexivity|]. split; [exact He'|]. split; [eexists _, _, _; exact HI'|].
+    split; [rewrite Hst'; exact Hst1|]. cbn [wal_with st_next_id w0]. split; [lia|]. split; [lia|].
+    rewrite (abs_empty_tail _ _ _ _ _ _ HI' eq_refl).
+    assert (Hcontent := firstn_content c (e_disk e) (ws_commit_idx tw) ss t [] nmax (ws_index_start tw')
+               (e_disk (create_env si (commit_env (st_next_id w + 1) ((ss ++ [t']) ++ [si]) e0)))
+               HS HL Hpm Hminsv1).
+    rewrite <- HFm in Hcontent. fold t' in Hcontent.
+    rewrite Hcontent; clear Hcontent.
+    + rewrite Ha. cbn [sl_ents]. destruct ss as [|s0 r0]; cbn [app hd] in *; f_equal; symmetry; exact HFm.
+    + rewrite (emax_unsealed _ _ Hu), Hci. destruct (N.eqb_spec (ws_n tw) 0); lia.
+    + destruct (vis_tail _ _ _ _ HT) as (f & _ & _ & _ & _ & _ & Hlen & _). unfold llen in Hlen. lia.
+    + intros s Hs. rewrite Hlk'; [apply Hoth; exact Hs|].
+      apply fname_eqb_neq. intros Eq. apply (Hlisted s); [apply in_or_app; left; exact Hs|]. rewrite Eq. exact Hnone.
+    + unfold file_ents at 1. rewrite Hlk'; [exact Hfe1|].
+      apply fname_eqb_neq. intros Eq. apply (Hlisted t); [apply in_or_app; right; left; reflexivity|]. rewrite Eq. exact Hnone.
+  - (* a sealed segment becomes the last one *)
+    injection E1 as Esv Epost. subst sv2.
+    assert (Hsv : sealed_ok c (e_disk e) sv).
+    { rewrite E2 in HS. apply Forall_app in HS. destruct HS as [_ HS]. inversion HS; assumption. }
+    assert (Hsl : si_sealed sv = true) by apply Hsv. rewrite Hsl.
+    fold (seal_info sv nmax (si_index_start sv)).
+    set (t' := seal_info sv nmax (si_index_start sv)).
+    rewrite (seg_set_replace_last t' pre' sv Hpbase eq_refl).
+    assert (Hbase_le : Forall (fun s => si_base s < si_max t' + 1) (pre' ++ [t'])).
+    { apply Forall_app. split.
+      - eapply Forall_impl; [|exact Hpbase]. intros s Hs. cbn [t' seal_info si_max] in *. lia.
+      - constructor; [|constructor]. cbn [t' seal_info si_max si_base]. lia. }
+    rewrite (create_next_snoc c _ pre' t' 0 Hbase_le ltac:(cbn [t' seal_info si_max]; lia) Hnid).
+    change (si_max t' + 1) with (nmax + 1). fold si.
+    set (w0 := {| st_next_id := st_next_id w; st_segs := st_segs w; st_tail := st_tail w;
+                  st_rotate := st_rotate w; st_failed := st_failed w; st_closed := st_closed w |}).
+    set (e0 := add_m e _).
+    assert (Hmaxsv : nmax <= si_max sv).
+    { rewrite Epost in Hlinked. assert (Hl2 := linked_app_r _ _ Hlinked).
+      assert (Hx : exists x rest, r2 ++ [t] = x :: rest) by (destruct r2; cbn [app]; eauto).
+      destruct Hx as (x & rest & Ex). rewrite Ex in Hl2. destruct Hl2 as (E3 & _).
+      rewrite Epost, Ex in Hpost. inversion Hpost; subst. lia. }
+    assert (HSt' : sealed_ok c (e_disk e) t') by (apply sealed_set_max; assumption).
+    destruct (mutate_new_tail c false w0 e0 (pre' ++ [t']) (nmax + 1) (map name_of rpost))
+      as (Hmut & HI' & He' & Hst' & Hm' & Hlk'); try assumption; try reflexivity; try lia.
+    { apply Forall_app. split; [exact HSp|constructor; [exact HSt'|constructor]]. }
+    { rewrite <- app_assoc. cbn [app]. apply linked_app_intro.
+      - eapply linked_last_replace; [| |exact (proj1 (linked_app_inv _ _ _ Hlinked))]; reflexivity.
+      - cbn [linked new_segment si_base si_min t' seal_info si_max]. repeat split; reflexivity. }
+    change (new_segment c (st_next_id w0) (nmax + 1)) with si in *.
+    change (st_next_id w0) with (st_next_id w) in *.
+    unfold mutate. rewrite Hmut.
+    set (e2 := create_env si _) in *.
+    assert (Hdn : forall s n, In s ((pre' ++ [t']) ++ [si]) -> In n (map name_of rpost) ->
+                              fname_eqb (name_of s) n = false).
+    { intros s n Hs Hn'. apply in_map_iff in Hn'. destruct Hn' as (x & <- & Hx).
+      apply in_rev in Hx. rewrite <- Hpost_def in Hx.
+      apply in_app_or in Hs. destruct Hs as [Hs|[<-|[]]].
+      - assert (Hs' : exists s', In s' (pre' ++ [sv]) /\ name_of s' = name_of s).
+        { apply in_app_or in Hs. destruct Hs as [Hs|[<-|[]]].
+          - exists s. split; [apply in_or_app; left; exact Hs|reflexivity].
+          - exists sv. split; [apply in_or_app; right; left; reflexivity|reflexivity]. }
+        destruct Hs' as (s' & Hs' & <-). apply fname_neq_base. cbn [name_of fst].
+        specialize (Hsorted s' x Hs' Hx). lia.
+      - apply fname_eqb_neq. intros Eq. apply (Hlisted x).
+        + rewrite E'. apply in_or_app. right. right. exact Hx.
+        + rewrite <- Eq. exact Hnone. }
+    destruct (WInvS_delete_files c _ e2 _ si _ _ HI' He' Hdn) as (G1 & G2 & G3 & G4 & _).
+    eexists _, _. split; [reflexivity|]. split; [exact G3|]. split; [eexists _, si, _; exact G1|].
+    split; [rewrite G4; exact Hst'|]. cbn [wal_with st_next_id w0]. split; [lia|]. split; [lia|].
+    rewrite G2. rewrite (abs_empty_tail _ _ _ _ _ _ HI' eq_refl).
+    assert (Hcontent := firstn_content c (e_disk e) (ws_commit_idx tw) pre' sv post nmax (si_index_start sv)
+               (e_disk e2) HSp Hlinked Hpm Hminsv1).
+    fold t' in Hcontent. rewrite <- Hhd, <- HFm, <- E' in Hcontent.
+    rewrite Hcontent; clear Hcontent.
+    + rewrite Ha. cbn [sl_ents]. rewrite Hhd in HFm.
+      destruct pre' as [|s0 r0]; cbn [app hd] in *; f_equal; symmetry; exact HFm.
+    + rewrite (emax_sealed _ _ Hsl). exact Hmaxsv.
+    + destruct (vis_sealed _ _ (ws_commit_idx tw) _ Hsv) as (f & _ & _ & _ & Hlen & _). unfold llen in Hlen. lia.
+    + intros s Hs. apply Hlk'.
+      apply fname_eqb_neq. intros Eq. apply (Hlisted s); [rewrite E'; apply in_or_app; left; exact Hs|].
+      rewrite Eq. exact Hnone.
+    + unfold file_ents. rewrite Hlk'; [reflexivity|].
+      apply fname_eqb_neq. intros Eq. apply (Hlisted sv); [rewrite E'; apply in_or_app; right; left; reflexivity|].
+      rewrite Eq. exact Hnone.
+Qed.
